@@ -167,6 +167,26 @@ def run(tier):
                           f"failing clauses {failing}; diag={dg['diag']}", {"meta": meta[tid - 1], "trace": traces[tid - 1][:60], "diag": dg},
                           tags=tuple(failing))
         rep.sample({"meta": meta[0], "events": traces[0][:5]})
+    if tier == "thorough":
+        from vf import repotests
+        out = repotests.run_suite(select=["gemclus/tests/test_path.py"])
+        rep.extra["repo_test_suite"] = out["summary"]
+        for grp in repotests.groups(out["path"]):
+            tr2 = [t["events"] for t in grp]
+            res = trace.validate("PathTrace", tr2, invariants=["HistoriesAligned", "LastCountSmall", "PatienceBounds"], timeout=6000)
+            rep.add_tlc("PathTrace", res["result"], note=f"{len(tr2)} path() traces recorded from the repository's own tests")
+            rep.traces += len(tr2)
+            for inv, tid in res["inv_violations"]:
+                rep.violation(f"a path() performed by the repository's tests violates {inv}: {grp[tid - 1]['test'] if tid else ''}", {}, tags=(inv, "repo-tests"))
+            for tid in res["rejected"]:
+                if any(t == tid for _, t in res["inv_violations"]):
+                    continue
+                dg = trace.diagnose("PathTrace", tr2, tid)
+                failing = [k for k, v in (dg["diag"] or {}).items() if v is False and not k.startswith("expected_")]
+                if failing and set(failing) <= NOT_OWN:
+                    continue
+                rep.violation(f"a path() performed by the repository's tests ({grp[tid - 1]['test']}) is not a behaviour of Path: stuck at event "
+                              f"#{dg['l']}, failing clauses {failing}", {"test": grp[tid - 1]["test"]}, tags=tuple(failing) + ("repo-tests",))
     rep.assumptions = ["max_patience >= 1 (undocumented below 1); exact mode uses dyadic keep_threshold / early_stopping_factor and integer "
                        "scores so every float comparison in _path is exact; in float mode the comparisons are mirrored by the recorder",
                        "recorder wraps the module attribute gemclus.sparse._base_sparse.compute_val_score and instance attributes (no source hook)"]
